@@ -187,8 +187,7 @@ func (c *Ctx) quick() bool { return c.Tier != "thorough" }
 var hangs atomic.Int64
 
 // how standard input reaches crd is rotated by a hash of the request (so a request always travels the same way): mostly a
-// pipe fed at once, one run in eight redirected from a regular file (`< file`), one in eight a slow pipe, one in sixteen a
-// regular file positioned behind a first line that "somebody else" has read
+// pipe fed at once, one run in eight redirected from a regular file (`< file`), one in eight a slow pipe
 func requestHash(args []string, stdin []byte) uint32 {
 	h := fnv.New32a()
 	for _, a := range args {
@@ -219,8 +218,6 @@ func stdinModeFor(args []string, stdin []byte) string {
 		return "file"
 	case 2, 3:
 		return "slow"
-	case 4:
-		return "fileoff"
 	}
 	return ""
 }
@@ -235,9 +232,6 @@ func respell(args []string, h uint32) []string {
 	sel := (h / 64) % 8
 	if sel == 4 {
 		return globalsFirst(args)
-	}
-	if sel == 3 {
-		return decoyFirst(args)
 	}
 	if sel < 5 {
 		return args
@@ -271,20 +265,6 @@ func respell(args []string, h uint32) []string {
 		}
 	}
 	return out
-}
-
-// decoyFirst gives the first single-valued flag of the request twice, an earlier mention with another value in front of
-// the real one: the last mention of such a flag is the one that counts
-func decoyFirst(args []string) []string {
-	decoys := map[string]string{"--key": "F#", "--bpm": "77", "--meter": "7/8", "--velocity": "pp", "--track": "9", "--root": "Gb", "--target": "Minor2", "--maxDegree": "3", "--program": "5", "--instrument": "Decoy"}
-	for i := 0; i+1 < len(args); i++ {
-		if d, ok := decoys[args[i]]; ok {
-			out := append([]string{}, args[:i]...)
-			out = append(out, args[i], d)
-			return append(out, args[i:]...)
-		}
-	}
-	return args
 }
 
 // globalsFirst moves the global flags (--debug, -o / --output, --attr, --chord) in front of the sub-command: they are
